@@ -183,6 +183,10 @@ def run_shard(spec):
             else:
                 rej.append({"kind": "rej_char", "ch": ch, "pos": c % 3})
                 rej.append({"kind": "rej_Rforeign", "ch": ch})
+        # blank-like characters other than the space itself, raw and as escapes: not in the alphabet
+        for ws in ["\t", "\x0b", "\x0c", "\xa0", "\u2003", "\u3000", "\x1f", "\x85", "\r", "\\t", "\\n", "\\x09", "\\r", "\\x0c", "\u2009", "\u202f", "\ufeff", "\x1c"]:
+            for pos in range(3):
+                rej.append({"kind": "rej_char", "ch": ws, "pos": pos})
         for n in list(range(40, 64)) + [64, 100, 255, 1000]:
             rej.append({"kind": "rej_code", "n": n})
         for n in range(0, 40):
